@@ -299,6 +299,7 @@ KNOWN = {
     'sqlite-decimal-numeric-affinity-loses-digits': "DECIMAL(p, s) columns have NUMERIC affinity in SQLite, so the decimal text is converted to INTEGER/REAL: Optional(Decimal, 30, 2) set to Decimal('12345678901234567.89') reads back 12345678901234568.00",
     'sqlite-json-toplevel-bigint-becomes-float': "a Json attribute whose value is a bare integer beyond 64 bits is stored in the NUMERIC-affinity JSON column as REAL: 2**70+1 reads back as the float 1.1805916207174113e+21",
     'sqlite-float-nan-becomes-null': "SQLite stores a float NaN as NULL: Optional(float) set to float('nan') reads back None",
+    'sqlite-timedelta-float-days-loses-microseconds': "SQLite stores a timedelta as a float number of days (53-bit mantissa), so from about 100000 days (274 years) on microseconds are lost: Optional(timedelta) set to timedelta(days=150000, microseconds=1) reads back timedelta(days=150000)",
 }
 
 def classify(c, v, seen, got):
@@ -313,6 +314,8 @@ def classify(c, v, seen, got):
         return 'sqlite-json-toplevel-bigint-becomes-float'
     if c.py_type is float and isinstance(seen, float) and seen != seen and got is None:
         return 'sqlite-float-nan-becomes-null'
+    if c.py_type is timedelta and isinstance(seen, timedelta) and isinstance(got, timedelta) and abs(seen.days) >= 65536 and abs(seen - got) < timedelta(seconds=1):
+        return 'sqlite-timedelta-float-days-loses-microseconds'
     return None
 
 def run_values(ctx, db, ents, rawcon, cs):
@@ -446,7 +449,7 @@ def foreign_texts(ctx, db, ents, rawcon_path):
 def witnesses(ctx, db, ents, rawcon):
     """fixed minimal witnesses of the known findings (and regression witnesses of the fixed defects), replayed on every run"""
     W = [('dec_12_2', Decimal('1.005')), ('dec_30_2', Decimal('12345678901234567.89')), ('json', 2 ** 70 + 1), ('float', math.nan),
-         ('date', date(999, 12, 31)), ('date', date(1, 1, 1)), ('time6', time(0, 0, 0, 1)), ('time0', time(1, 2, 3, 999999))]
+         ('timedelta6', timedelta(days=150000, microseconds=1)), ('date', date(999, 12, 31)), ('date', date(1, 1, 1)), ('time6', time(0, 0, 0, 1)), ('time0', time(1, 2, 3, 999999))]
     cs = {c.name: c for c in configs()}
     for name, v in W:
         c = cs[name]; E = ents[name]; table = E._table_
